@@ -225,7 +225,12 @@ class workq:
 
         jobs = [self.id2job[jid] for jid in jobids]
         for j in jobs:
-            j.finish_event.wait()
+            if not j.done:
+                # never wait on the event of a finished job: while gevent's
+                # notifier for earlier waiters is still pending, Event.wait()
+                # blocks even though the event is set, and the wake-up is lost
+                # if those earlier waiters disconnect before the notifier runs
+                j.finish_event.wait()
             if j.drop and self.id2job.get(j.jobid) is j:
                 # several clients may wait on a dropped job, and its id may have
                 # been re-added (after a kill) or dropped by the watchdog meanwhile
